@@ -221,6 +221,8 @@ ARGV_TEMPLATES = [
     dict(name="save-detections", argv=["-o", "det_{id}_{start:.2f}_{end:.2f}.wav"]),
     dict(name="join", argv=["-O", "joined.wav", "-j", "0.1"]),
     dict(name="join-without-O", argv=["-j", "0.1"], status=1),
+    dict(name="join-zero-without-O", argv=["-j", "0"], status=1),
+    dict(name="join-zero", argv=["-O", "joined.wav", "-j", "0"]),
     dict(name="stereo-any", argv=["-c", "2"]),
     dict(name="stereo-u0", argv=["-c", "2", "-u", "0"]),
     dict(name="stereo-u1", argv=["-c", "2", "-u", "1"]),
@@ -350,7 +352,7 @@ def judge_e2e(tpl, core, util, data, status, err, out_lines, files):
             return ["saved stream %s does not hold the %d bytes read" % (None if f is None else (len(f[0] or b""), f[1], f[2]), len(data))]
     if "-j" in argv and "-O" in argv:
         f = files.get("joined.wav")
-        sil = b"\0" * (round(0.1 * 10) * 2)
+        sil = b"\0" * (round(float(argv[argv.index("-j") + 1]) * 10) * 2)
         want = sil.join(bytes(r.data) if not isinstance(r.data, bytes) else r.data for r in regs)
         if f is None or f[0] != want or not f[2]:
             return ["joined file %s differs from the %d events joined with silence (%d bytes)" % (None if f is None else len(f[0] or b""), len(regs), len(want))]
@@ -381,6 +383,12 @@ def replay_fn(c):
         if want is None:
             return [("C15: unknown time-format directive accepted", "make_duration_formatter(%r) does not raise" % fmt)]
         import fractions
+        # besides the model's duration, probe the field boundaries concretely (a replayed fact; used when the symbolic run
+        # left the modelled fragment, e.g. because the code switched to datetime arithmetic)
+        for probe in (0.0, 0.0015, 0.999, 1.0, 59.9994, 60.0, 61.5, 3599.999, 3600.0, 3661.001, 86399.999, 86400.0, 90061.001, 360000.25, 1e7 + 0.5):
+            bad = _judge_format(f, fmt, probe)
+            if bad:
+                return [("C15: time format %r renders a duration wrongly" % fmt, bad)]
         text = f(sec)
         M = int(fractions.Fraction(sec) * 1000)
         Ms = {M, int(sec * 1000)}
@@ -401,6 +409,23 @@ def replay_fn(c):
     if c["kind"] == "wiring":
         return replay_wiring(c)
     return replay_e2e(c)
+
+
+def _judge_format(f, fmt, sec):
+    import fractions
+    text = f(sec)
+    oks = []
+    for MM in {int(fractions.Fraction(sec) * 1000), int(sec * 1000)}:
+        h, r = divmod(MM, 3600000)
+        mi, r = divmod(r, 60000)
+        s_, ms = divmod(r, 1000)
+        if fmt == "%S":
+            oks.append("{:.3f}".format(sec))
+        elif fmt == "%I":
+            oks.append(str(MM))
+        else:
+            oks.append(fmt.replace("%h", "%02d" % h).replace("%m", "%02d" % mi).replace("%s", "%02d" % s_).replace("%i", "%03d" % ms))
+    return None if text in oks else "%r seconds rendered as %r, expected %s" % (sec, text, oks)
 
 
 def replay_wiring(c):
@@ -503,6 +528,7 @@ def run(rep):
     imap = S.modules()
     imap["time"] = S.time_module()
     L = loader.load(thr.NAMES + ("cmdline_util", "cmdline"), import_map=imap)
+    thr.no_finalisers(L.modules["workers"])
     rep.hashes = L.hashes
     tier = rep.tier
     rep.bounds = {"formatter": "formats %s; seconds = p/q with p an unbounded non-negative integer, q in %s" % (FMTS, DENS[tier]),
